@@ -106,7 +106,10 @@ class State:
         self.env = dict(env); self.pc = list(pc)
         self.ret = None; self.done = False; self.raised = None
     def fork(self):
-        s = State(self.env, self.pc); return s
+        s = State(self.env, self.pc)
+        if getattr(self, 'approx', False):
+            s.approx = True
+        return s
 
 
 class Obligation:
@@ -118,6 +121,7 @@ class Obligation:
 
 class Exec:
     """symbolic executor; `lib` maps call names to handlers handler(ex, st, node, args, kwargs)"""
+    trust_models = False
     def __init__(self, lib=None, calls=None, mode='T', solver=None, loop_handler=None, fname=''):
         self.lib = dict(lib or {})
         self.calls = dict(calls or {})
@@ -158,7 +162,7 @@ class Exec:
             return [st]
         if isinstance(n, ast.AugAssign):
             cur = self.ev(n.target, st)
-            v = self.binop(n.op, cur, self.ev(n.value, st), n)
+            v = self.binop(n.op, cur, self.ev(n.value, st), n, st)
             self.assign(n.target, v, st)
             return [st]
         if isinstance(n, ast.AnnAssign):
@@ -220,6 +224,12 @@ class Exec:
         c = self.ev(n.test, st)
         tv = self.truth(c, st)
         text = ast.unparse(n.test)
+        if text in getattr(self, 'assume_asserts', ()):
+            # a leading assert of the function is a precondition: callers must establish it
+            self.obligations.append(Obligation('precondition', text + ' (leading assert = requires; obligation of the callers)', n.lineno, True))
+            if _is_z3(c):
+                st.pc.append(c)
+            return [st]
         if tv is True:
             self.obligations.append(Obligation('assert', text, n.lineno, True))
             return [st]
@@ -358,7 +368,10 @@ class Exec:
 
     def ev_Name(self, e, st):
         if e.id in st.env:
-            return st.env[e.id]
+            v = st.env[e.id]
+            if getattr(v, 'is_unbound', False):
+                raise Unsupported(f'variable {e.id} has no known value here (loop-carried temporary)')
+            return v
         if e.id in ('np', 'numpy', 'sparse', 'copy', 'itertools', 'warnings'):
             return ModRef(e.id)
         if e.id in ('True', 'False', 'None'):
@@ -366,6 +379,8 @@ class Exec:
         if e.id in self.calls or e.id in self.lib or e.id in _BUILTINS:
             return FuncRef(e.id)
         if e.id in ('int', 'float', 'complex', 'str', 'list', 'tuple', 'bool'):
+            return FuncRef(e.id)
+        if e.id in ('RuntimeWarning', 'ValueError', 'RuntimeError', 'AssertionError', 'TypeError', 'KeyError'):
             return FuncRef(e.id)
         raise Unsupported(f'unbound name {e.id}')
 
@@ -387,6 +402,9 @@ class Exec:
         c = self.truth(self.ev(e.test, st), st)
         if c is True: return self.ev(e.body, st)
         if c is False: return self.ev(e.orelse, st)
+        h = self.lib.get('ifexp')
+        if h is not None:
+            return h(self, st, e)
         raise Unsupported('symbolic conditional expression')
 
     def ev_Attribute(self, e, st):
@@ -484,7 +502,7 @@ class Exec:
                 return l * r
         if (_is_z3(l) or _is_z3(r)) and not (hasattr(l, 'is_symtensor') or hasattr(r, 'is_symtensor')) \
                 and not isinstance(l, (tuple, list)) and not isinstance(r, (tuple, list)) \
-                and not hasattr(l, 'is_zarr') and not hasattr(r, 'is_zarr'):
+                and not hasattr(l, 'is_zarr') and not hasattr(r, 'is_zarr') and not hasattr(l, 'is_zscal') and not hasattr(r, 'is_zscal'):
             if isinstance(op, ast.FloorDiv):
                 return l / r      # z3 Int division is floor division for positive divisor
             if isinstance(op, ast.Pow):
